@@ -51,6 +51,12 @@ class C19Struct(Scenario):
         cfg = structs.gen_cfg_for(name, rng)
         cfg.update({"subject": name, "steps": rng.between(3, self.max_steps), "saturate": rng.chance(1, 6),
                     "negatives": rng.chance(1, 3)})
+        if name in ("BloomFilter", "CountingBloomFilter") and rng.chance(1, 25):
+            al = common.aligned_geometries()["cells" if name == "CountingBloomFilter" else "bytes"]
+            if al:
+                cfg["est"], cfg["rate"] = rng.choice(al)  # array length an exact multiple of 4096
+                cfg["steps"] = rng.between(3, 12)
+                cfg["aligned"] = True
         return cfg
 
     def gen_step(self, rng):
